@@ -16,9 +16,10 @@
     Stream "exec-skeleton": one case = the lock skeleton of jwt_signer.go and the event skeleton (one event
     list per path) of jwtFinalizer.Execute extracted from jwt_finalizer.go.
       v_corr = v_prop   Execute has exactly the critical-section structure the machine assumes
-                        ([exec_shape] = the variant named by the fixes the tree is expected to have) *)
+                        ([exec_shape] = the variant named by the fixes the tree is expected to have) and the programs
+                        of the sections, read off the skeleton, satisfy [progs_ok] (hypothesis of C16_fine_...) *)
 From HV Require Export Run.Eval_C16.
-From HV Require Export C16.ConcSkel C16.Conc.
+From HV Require Export C16.ConcSkel C16.ConcGen C16.Conc.
 
 Record ccall := { cc_ov : option override; cc_req : req; cc_now : Z }.
 
@@ -135,6 +136,10 @@ Definition CC cfg f cr calls sched res span jw :=
 Record xskel_case := { x_skel : skeleton; x_exec : list (list xev) }.
 Definition XS s x := {| x_skel := s; x_exec := x |}.
 
+(** Execute has the shape of the machine (of the variant the tree is expected to be), and the sections of the
+    signer methods it calls, of the reader of the published set and of the writer are programs the refinement
+    theorem covers ([progs_ok]) *)
 Definition check_xskel (impl : fixes) (c : xskel_case) : verdict :=
-  let ok := match exec_shape (x_skel c) (x_exec c) with Some b => Bool.eqb b (fx_F2 impl) | None => false end in
+  let ok := match exec_shape (x_skel c) (x_exec c) with Some b => Bool.eqb b (fx_F2 impl) | None => false end
+            && match programs (x_skel c) (x_exec c) with Some P => progs_ok P | None => false end in
   {| v_corr := ok; v_prop := ok; v_guards := [] |}.
